@@ -276,7 +276,7 @@ pub fn run_c32(batch: &str, tape: &mut Tape, rep: &mut Report) {
         start_clock();
         // sequential-core: no heartbeats at all (and a timeout nothing reaches), so that pipelines_running is purely the
         // coordinator's own bookkeeping and is never refreshed from a worker's report
-        let no_heartbeats = batch == "sequential-core";
+        let no_heartbeats = batch == "sequential-core" || batch == "sequential-faults";
         let (coord, routes) = standalone(if no_heartbeats { 100_000_000 } else { 15 });
         for i in 1..=nworkers {
             net.lock().unwrap().workers.insert(whost(i), SimWorker { up: true, ..Default::default() });
@@ -340,6 +340,13 @@ pub fn run_c32(batch: &str, tape: &mut Tape, rep: &mut Report) {
                     Rq::Tick => { health_tick(&coord).await; 200 }
                 };
                 net.lock().unwrap().events.push(format!("request #{} {:?} -> {}", i, rq, out));
+                {
+                    // the coordinator's books after this request (decoded trace only)
+                    let c = coord.read().await;
+                    let mut ws: Vec<String> = c.workers.iter().map(|(id, w)| { let mut a = w.assigned_pipelines.clone(); a.sort(); format!("{} running={} assigned={:?}", id, w.capacity.pipelines_running, a) }).collect();
+                    ws.sort();
+                    net.lock().unwrap().events.push(format!("   books: {}", ws.join("; ")));
+                }
                 if mutating { *mutating_in_flight.lock().unwrap() -= 1; }
                 if matches!(rq, Rq::Deregister(_) | Rq::Drain(_)) && out / 100 == 2 { causes.lock().unwrap().insert("worker-removed"); }
                 overlap.lock().unwrap().0 -= 1;
